@@ -689,4 +689,47 @@ theorem balL_compileNewScope (isFn : Nat → Bool) : ∀ (es : List Expr) (c : C
 
 end
 
+/-! ## Whole programs -/
+
+/-- the context of a top-level text: loop ids occur once; loops allocated before the text
+(`< N`; their `for` forms are not in this text) do not occur -/
+def topEnv (N : Nat) : Env :=
+  { loops := [], side := fun F _ => LoopsUnique F.code ∧ ∀ l, l < N → loopPos F.code l = none }
+
+/-- **The generator emits balanced code** (all forms): the top-level code of a text of the covered
+grammar is verified, and so is every function template the generator allocates on the way
+(bodies of `fn`/`defn` at any nesting depth), for every loop table `T` that agrees with the
+records of the loops allocated while compiling the text. -/
+theorem program_verified (isFn : Nat → Bool) (es : List Expr) (gs gs' : GS) (code : List Instr) (t : Bool)
+    (T : List LoopRec) (hok : okLs es = true) (hgs : GSok gs) (hT : TOk gs gs' T)
+    (h : compileBegin isFn {} es gs = Except.ok ((code, t), gs')) :
+    (∃ ann, verify { kind := .top, code := B T code } ann = true) ∧ FnsOK gs gs' T := by
+  obtain ⟨_, ids, hnil, R⟩ := balL_compileBegin isFn es {} gs code t gs' hok hgs h
+  obtain ⟨hf, hfr⟩ := R.sem T hT
+  refine ⟨?_, hf⟩
+  by_cases hne : es = []
+  · have := hnil hne
+    subst this
+    exact ⟨[some restState], by simp only [B, List.map_nil]; decide⟩
+  · have hinv : GInv 0 {} gs (topEnv gs.loops.length) T restState := by
+      refine ⟨by decide, rfl, fun F A h => h.1, fun m hm => by simp [restState, openMarks] at hm, ?_, fun ht => by cases ht⟩
+      intro id hid
+      right
+      intro F A h
+      exact h.2 id (hgs id hid)
+    obtain ⟨mid, hfrag⟩ := hfr hne 0 (topEnv gs.loops.length) restState hinv
+    refine ⟨_, verify_of_frag_top (topEnv gs.loops.length) (B T code) mid hfrag ⟨⟨?_, ?_⟩, fun i hi => by cases hi⟩⟩
+    · apply loopsUnique_of_nodup
+      show (lids (B T code)).Nodup
+      rw [lids_B]; exact nodup_of_idsIn ids
+    · intro l hl
+      apply loopPos_none
+      show l ∉ lids (B T code)
+      rw [lids_B]
+      intro hm
+      have := (mem_range_of_idsIn ids l hm).1
+      omega
+
+theorem TOk.self (gs gs' : GS) : TOk gs gs' gs'.loops := fun _ _ _ => rfl
+
 end ZygoVerif.Bal
